@@ -1,6 +1,7 @@
 import MpVerif.C20.ModelGraph
 import MpVerif.C20.ModelExport
 import MpVerif.C20.ModelEscape
+import MpVerif.C20.ModelExporter
 /-! Line driver for C20.  One op per line, one answer line per op; no logic of its own.
 
   W <op>*            writer machine: ops `k:<hex>` `e` `s:<hex>` `t:<hex>` `c`  ->  hex of the text written
@@ -12,6 +13,10 @@ import MpVerif.C20.ModelEscape
   o sense lin q1 q2  one delivered objective (sense 0/1; comma-separated variable lists or `-`), in index order
   C <hexty> g <hexname>   one delivered constraint (short type name, group, name)
   check              -> `ok` | `fail <reasons>`
+  EX <sub> …         exporter transition system (ModelExporter): `reset`, `types <hexty>*`, `grp <hexty> n`, `name <hexty> i <hexname>`,
+                     `static <hexnode> n`, events `v b ty li ui`, `sv i ty li ui`, `s <hexty>`, `b <hexty> i`, `u <hexty> i`,
+                     `l <hexlty> entry <src> <dst>` (endpoints `hexnode:beg:last` joined by `,`, or `-`), `f`;
+                     `dump` -> `rej=<n> fin=<0|1> | <non-link records> | <delivered> | links=<n>`
   EB <hex>           byte-level `EscapeJSON` model: hex of `escapeB` of the given bytes
   WA <op>* / XA <op>*  which arms of `step`/`escChar` resp. `addEntry`/`addRange` the sequence takes (coverage note only)
   X <op>*            link-export protocol: ops `a:<c|o|m>:<src>:<sb>:<se>:<dst>:<db>:<de>` (AddEntry) and `f` (finish)
@@ -87,9 +92,40 @@ def finalDump (s : PState) : String :=
 def natCsv (s : String) : Option (List Nat) :=
   if s == "-" then some [] else (s.splitOn ",").mapM (·.toNat?)
 
+structure XCfgS where
+  types : List Str := []
+  grp : List (Str × Nat) := []
+  names : List ((Str × Nat) × Str) := []
+  static : List (Str × Nat) := []
+
+def XCfgS.toCfg (c : XCfgS) : Cfg :=
+  ⟨c.types, fun ty => (c.grp.lookup ty).getD 0, fun ty i => (c.names.lookup (ty, i)).getD [], c.static⟩
+
+def parseRefs (s : String) : Option (List NodeRef) :=
+  if s == "-" then some [] else
+  (s.splitOn ",").mapM (fun t =>
+    match t.splitOn ":" with
+    | [n, b, l] =>
+      match unhexStr n, b.toNat?, l.toNat? with
+      | some (some nd), some b, some l => some ⟨nd, b, l⟩
+      | _, _, _ => none
+    | _ => none)
+
+def b01 (b : Bool) : String := if b then "1" else "0"
+
+def recCanon : Rec → Option String
+  | .var i b info => some s!"V {i} {b01 b} {info.ty} {b01 info.lbInf} {b01 info.ubInf}"
+  | .conNew ty i => some s!"N {hexOfStr ty} {i}"
+  | .conStatus ty i nm u b f => some s!"S {hexOfStr ty} {i} {hexOfStr nm} {b01 u} {b01 b} {b01 f}"
+  | .conGroup ty g => some s!"G {hexOfStr ty} {g}"
+  | _ => none
+
 structure DState where
   lines : List (Option Rec) := []      -- reversed
   bad : Bool := false
+  xc : XCfgS := {}
+  xs : XState := {}
+  xevents : List Ev := []
   d : Delivered := ⟨0, 0, 0, 0, 0, [], [], []⟩
 
 partial def loop (h : IO.FS.Stream) (out : IO.FS.Stream) (st : DState) : IO Unit := do
@@ -121,6 +157,60 @@ partial def loop (h : IO.FS.Stream) (out : IO.FS.Stream) (st : DState) : IO Unit
     match ops.mapM parseXOp with
     | some os => out.putStrLn (" ".intercalate (xrunArms {} os)); loop h out st
     | none => out.putStrLn "bad-op"; loop h out st
+  | "EX" :: sub =>
+    let ev (e : Ev) : IO Unit := do out.putStrLn "ok"; loop h out { st with xevents := st.xevents ++ [e] }
+    match sub with
+    | ["reset"] => out.putStrLn "ok"; loop h out { st with xc := {}, xs := {}, xevents := [] }
+    | "types" :: tys =>
+      match tys.mapM (fun t => match unhexStr t with | some (some x) => some x | _ => none) with
+      | some l => out.putStrLn "ok"; loop h out { st with xc := { st.xc with types := l } }
+      | none => out.putStrLn "bad-op"; loop h out st
+    | ["grp", ty, n] =>
+      match unhexStr ty, n.toNat? with
+      | some (some ty), some n => out.putStrLn "ok"; loop h out { st with xc := { st.xc with grp := st.xc.grp ++ [(ty, n)] } }
+      | _, _ => out.putStrLn "bad-op"; loop h out st
+    | ["name", ty, i, nm] =>
+      match unhexStr ty, i.toNat?, unhexStr nm with
+      | some (some ty), some i, some (some nm) =>
+        out.putStrLn "ok"; loop h out { st with xc := { st.xc with names := st.xc.names ++ [((ty, i), nm)] } }
+      | _, _, _ => out.putStrLn "bad-op"; loop h out st
+    | ["static", nd, n] =>
+      match unhexStr nd, n.toNat? with
+      | some (some nd), some n => out.putStrLn "ok"; loop h out { st with xc := { st.xc with static := st.xc.static ++ [(nd, n)] } }
+      | _, _ => out.putStrLn "bad-op"; loop h out st
+    | ["v", b, ty, li, ui] =>
+      match b.toNat?, ty.toNat?, li.toNat?, ui.toNat? with
+      | some b, some ty, some li, some ui => ev (.addVar (b != 0) ⟨ty, li != 0, ui != 0⟩)
+      | _, _, _, _ => out.putStrLn "bad-op"; loop h out st
+    | ["sv", i, ty, li, ui] =>
+      match i.toNat?, ty.toNat?, li.toNat?, ui.toNat? with
+      | some i, some ty, some li, some ui => ev (.setVar i ⟨ty, li != 0, ui != 0⟩)
+      | _, _, _, _ => out.putStrLn "bad-op"; loop h out st
+    | ["s", ty] =>
+      match unhexStr ty with
+      | some (some ty) => ev (.store ty)
+      | _ => out.putStrLn "bad-op"; loop h out st
+    | ["b", ty, i] =>
+      match unhexStr ty, i.toNat? with
+      | some (some ty), some i => ev (.bridge ty i)
+      | _, _ => out.putStrLn "bad-op"; loop h out st
+    | ["u", ty, i] =>
+      match unhexStr ty, i.toNat? with
+      | some (some ty), some i => ev (.unuse ty i)
+      | _, _ => out.putStrLn "bad-op"; loop h out st
+    | ["l", lty, e, src, dst] =>
+      match unhexStr lty, e.toNat?, parseRefs src, parseRefs dst with
+      | some (some lty), some e, some s1, some d1 => ev (.link lty e s1 d1)
+      | _, _, _, _ => out.putStrLn "bad-op"; loop h out st
+    | ["f"] => ev .finish
+    | ["dump"] =>
+      let s := xevs st.xc.toCfg {} st.xevents
+      let recs := s.out.filterMap recCanon
+      let nlinks := (s.out.filter (fun r => match r with | .link _ _ _ _ => true | _ => false)).length
+      let dl := s.delivered.map (fun c => s!"D {hexOfStr c.ty} {c.grp} {hexOfStr c.name}")
+      out.putStrLn (s!"rej={s.rejected} fin={b01 s.finished} | " ++ ";".intercalate recs ++ " | " ++ ";".intercalate dl ++ s!" | links={nlinks}")
+      loop h out st
+    | _ => out.putStrLn "bad-op"; loop h out st
   | ["EB", hx] =>
     match (if hx == "-" then some ByteArray.empty else unhexBytes hx.toList) with
     | some b =>
